@@ -100,6 +100,7 @@ func (x *Exec) concTrusted(st *State, fn *ssa.Function, name string, args []*Ter
 		return res, true
 	case "(*sync/atomic.Value).Load":
 		x.noteTrusted("sync/atomic.Value Load/Store are sequentially consistent atomic steps")
+		x.valueSort = c.SortOf(fn.Signature.Recv().Type().(*types.Pointer).Elem())
 		cell := c.FieldAddr(args[0], 0, c.SortOf(fn.Signature.Recv().Type().(*types.Pointer).Elem()))
 		x.interfere(st, cell, c.Iface, x.relyVal)
 		return ret(x.load(st, cell, c.Iface))
@@ -131,6 +132,8 @@ func (x *Exec) concTrusted(st *State, fn *ssa.Function, name string, args []*Ter
 		if st.locks[args[0]] {
 			return abortOut(st, "Lock of a mutex already held by this thread (deadlock)"), true
 		}
+		// acquiring may block: the environment runs before we get the lock
+		x.interfereShared(st)
 		st.locks[args[0]] = true
 		return ret(unit)
 	case "(*sync.Mutex).Unlock":
@@ -160,6 +163,29 @@ func (x *Exec) interceptConc(st *State, name string, args []*Term) ([]Outcome, b
 	case "SetGuaranteeValue":
 		x.guarVal = args[0]
 		return ret(c.Ctor(c.Unit))
+	case "Shared":
+		p := x.unboxAny(args[0])
+		if args[0].Op == "box" {
+			if pt, ok := c.boxTypes[args[0].Name].(*types.Pointer); ok {
+				x.valueSort = c.SortOf(pt.Elem())
+			}
+		}
+		if x.valueSort == nil {
+			return abortOut(st, "Shared needs a *sync/atomic.Value"), true
+		}
+		x.sharedVals = append(x.sharedVals, p)
+		x.interfereShared(st)
+		return ret(c.Ctor(c.Unit))
+	case "Peek":
+		p := x.unboxAny(args[0])
+		if x.valueSort == nil {
+			if pt, ok := c.boxTypes[args[0].Name].(*types.Pointer); ok && args[0].Op == "box" {
+				x.valueSort = c.SortOf(pt.Elem())
+			} else {
+				return abortOut(st, "Peek needs a *sync/atomic.Value"), true
+			}
+		}
+		return ret(x.load(st, c.FieldAddr(p, 0, x.valueSort), c.Iface))
 	case "Holding":
 		p := x.unboxAny(args[0])
 		return ret(c.BoolLit(st.locks[p]))
@@ -224,4 +250,13 @@ func (x *Exec) runSpawned(st *State, depth int) []Outcome {
 		res = append(res, x.runSpawned(o.st, depth+1)...)
 	}
 	return res
+}
+
+// interfereShared: an environment step on every declared shared sync/atomic.Value cell.
+func (x *Exec) interfereShared(st *State) {
+	c := x.c
+	for _, p := range x.sharedVals {
+		cell := c.FieldAddr(p, 0, x.valueSort)
+		x.interfere(st, cell, c.Iface, x.relyVal)
+	}
 }
